@@ -21,7 +21,7 @@ RULE = ("Files of position-coded bytes (all >= 0x80) with sizes {0,1,c-1,c,c+1,2
         "in the three spec forms + random 3-6-spec sets + malformed/other-unit/empty headers; If-Range in {absent,current ETag,stale ETag,"
         "weak ETag,current Last-Modified,other date,garbage,empty}; GET/HEAD; WSGI / ASGI / ASGI+zerocopy; plus one response object serving 2-4 requests in a row. Non-trivial = a Range header is "
         "present; distinct = (interface,method,size,chunk,range,if-range kind).")
-RULE += ' Also: content_type= arguments with Latin-1 characters, a subclass that overrides generate_etag(), two overlapping requests on one ASGI response object.'
+RULE += ' Also: content_type= arguments with Latin-1 characters, a subclass that overrides generate_etag(), two overlapping requests on one ASGI response object. TAB after / before the comma between specs; one ASGI case in eight read by a slow client, with no send() pending when the call returns.'
 ASSUMPTIONS = [
     "Range headers are limited to the RFC 7233 grammar plus headers every reading rejects (no '=', other unit, no spec); leniently accepted garbage is C03's business",
     "400-vs-416 precedence not pinned when both apply",
